@@ -281,4 +281,22 @@ def subjectEx (title : List Nat) : M (Nat × List Nat) := do
   let p ← cstrToBytes title
   subjectLoop (p.length + 1) p SUBJECT_NORMAL
 
+/-! ### the call site of TrimDBCS: the Title of a cross-posted article (ptt.CrossPost, ptt/bbs.go)
+
+`title := bytes.Join([][]byte{STR_FORWARD, CstrToBytes(fileHeader.Title[:])}, " ")`, then
+`copy(xFileHeader.Title[:], title)` (cuts at the 65-byte field) and THEN `types.TrimDBCS(xFileHeader.Title[:])`
+on the field — the order is the regenerated fact `Gen.C18Str.crossPostTitleStmts`. -/
+
+def crossPostTitle (title : List Nat) : M (List Nat) := do
+  let t := STR_FORWARD ++ [32] ++ cstr title
+  let field := copyInto (TTLEN + 1) t
+  let (_, field') ← trimDBCS field
+  pure field'
+
+/-- the broken order (seed C18-r6-2), for the witness theorem: trim the untruncated temporary, then copy. -/
+def crossPostTitleTrimFirst (title : List Nat) : M (List Nat) := do
+  let t := STR_FORWARD ++ [32] ++ cstr title
+  let (t', _) ← trimDBCS t
+  pure (copyInto (TTLEN + 1) t')
+
 end PttVerif.C18
